@@ -45,35 +45,11 @@ func genConfigFacts(repo string) (string, error) {
 		return "", err
 	}
 
-	// cross-check by evaluation: everything two fresh configurations share
+	// the objects two evaluations of newConfig() share (addresses of everything reachable)
 	a, b := opcua.VerifNewConfig(), opcua.VerifNewConfig()
-	pa, pb := opcua.VerifConfigPointers(a), opcua.VerifConfigPointers(b)
-	var dyn []string
-	for p, x := range pa {
-		if y, ok := pb[p]; ok && x == y {
-			dyn = append(dyn, p)
-		}
-	}
-	sort.Strings(dyn)
-	// keep only the outermost shared objects
-	var top []string
-	for _, p := range dyn {
-		inner := false
-		for _, q := range top {
-			if strings.HasPrefix(p, q+".") {
-				inner = true
-			}
-		}
-		if !inner {
-			top = append(top, p)
-		}
-	}
-	var astPaths []string
-	for _, s := range shared {
-		astPaths = append(astPaths, s.Path)
-	}
-	if strings.Join(top, " ") != strings.Join(astPaths, " ") {
-		return "", fmt.Errorf("alias facts by go/ast %v differ from the objects two evaluations of newConfig() share %v", astPaths, top)
+	shared, err = h.MergeAliasFacts(shared, h.DynShared(opcua.VerifConfigPointers(a), opcua.VerifConfigPointers(b)))
+	if err != nil {
+		return "", err
 	}
 
 	fps, err := h.ConfigFootprints(repo)
@@ -84,7 +60,7 @@ func genConfigFacts(repo string) (string, error) {
 
 	var sb strings.Builder
 	sb.WriteString("namespace Opcua.Gen.Config\n\n")
-	sb.WriteString("/-- objects of the default configuration that are NOT allocated per client: (path from the Config value,\n    package-level variable).  go/ast over newConfig and the constructors it calls, cross-checked by evaluation. -/\n")
+	sb.WriteString("/-- objects of the default configuration that are NOT allocated per client: (path from the Config value,\n    package-level variable).  Evaluation of newConfig() twice (address comparison), named by go/ast over the constructors. -/\n")
 	sb.WriteString("def shared : List (List String × String) := [")
 	for i, s := range shared {
 		if i > 0 {
